@@ -12,6 +12,9 @@ use std::collections::BTreeMap;
 use std::process::{Command, Stdio};
 use std::time::Instant;
 
+#[global_allocator]
+static GLOBAL: rv::alloc::Counting = rv::alloc::Counting;
+
 fn verif_root() -> String {
     std::env::var("RV_ROOT").unwrap_or_else(|_| "/verif".to_string())
 }
@@ -25,6 +28,7 @@ fn env_u64(name: &str) -> Option<u64> {
 }
 
 fn main() {
+    rv::alloc::INSTALLED.store(1, std::sync::atomic::Ordering::Relaxed);
     let args: Vec<String> = std::env::args().collect();
     if args.len() < 2 {
         eprintln!("usage: rv <Cxx> [--tier quick|thorough] [--seed N] [--shards N] | --replay file");
